@@ -178,6 +178,9 @@ def run(tier='quick'):
                         'inserts the new position into, on every path (also when the crate becomes a root)',
                   floor=1)
     old_position_removed(prog, cg, eff, chk, T7)
+    T13 = chk.rule('T13', '1.x: every statement that selects the crates below a crate excludes the self-parent row '
+                          'that marks a root (children, lookup by parent and name)', floor=2)
+    self_parent_excluded(prog, cg, eff, chk, T13)
     T12 = chk.rule('T12', 'set_parent refuses a parent handle whose crate has been removed (the parent of a live crate '
                           'is absent or live)', floor=2)
     parent_is_live(prog, cg, eff, chk, T12)
@@ -370,6 +373,38 @@ def moved_subtree_closure(prog, cg, eff, chk, T8):
                           'crate itself: its sub-crates stay descendants of the old ancestors and do not become '
                           'descendants of the new ones, so descendants() is wrong and the cycle guard, which reads '
                           'this table, accepts a parent that is in fact a descendant' % inst)
+
+
+def self_parent_excluded(prog, cg, eff, chk, T13):
+    """1.x marks a root crate by a CrateParentList row whose parent is the crate itself.  Every
+    statement that selects the rows *below* a crate (crateParentId bound to a value) must therefore
+    exclude that row (crateOriginId <> crateParentId), or a root is listed / found as its own child."""
+    n = 0
+    for f in prog.functions.values():
+        if f.body is None or f.is_pattern or '::v1::' not in (f.qualname or '') or '/schema/' in (f.file or ''):
+            continue
+        for st_ in eff.sites(f):
+            st = st_.stored_in
+            if st is None or st.kind != 'select':
+                continue
+            txt = ' '.join(st.text().lower().split())
+            if 'crateparentlist' not in txt:
+                continue
+            if not re.search(r'(\w+\s*\.\s*)?crateparentid\s*=\s*\?', txt):
+                continue
+            n += 1
+            excl = re.search(r'(\w+\s*\.\s*)?crateoriginid\s*(<>|!=)\s*(\w+\s*\.\s*)?crateparentid', txt) or \
+                re.search(r'(\w+\s*\.\s*)?crateparentid\s*(<>|!=)\s*(\w+\s*\.\s*)?crateoriginid', txt)
+            inst = '%s: rows below a crate selected with the self-parent row excluded' % _short(f.qualname)
+            if excl:
+                chk.ok(T13, inst, locstr(st_.node))
+            else:
+                chk.violation(T13, '%s|self-parent row not excluded' % _short(f.qualname), locstr(st_.node),
+                              '%s: not so - the statement selects CrateParentList rows by crateParentId = ? without '
+                              'crateOriginId <> crateParentId: for a root crate the row that marks it as a root '
+                              'matches, so the crate is returned as a sub-crate of itself' % inst)
+    if n < 2:
+        chk.fail_broken('T13: fewer than two statements select CrateParentList rows by parent (anchors lost)')
 
 
 def cycle_guard(prog, cg, eff, chk, T2, spec=None):
